@@ -245,6 +245,58 @@ def two_instances_case(args):
         sc.close()
 
 
+def simultaneous_failures_case(args):
+    """two tasks fail at nearly the same time; the first failure report is long (the command's captured output) and whoever
+    reads the program's output is slow, so reporting it takes a while: the second task's command has failed meanwhile -- its
+    (partial) output must still not appear at its final path"""
+    seed, i = args
+    import subprocess, threading, time, os as _os
+    rng = random.Random(seed * 86028251 + i)
+    sp = t3.Spec(maxtasks=4, bufsize=128)
+    sp.log = rng.choice(["error", "warning", "audit"])      # errors go to stderr
+    nb = rng.randint(1, 3)
+    sp.proc(t3.RawProc("noisy", "head -c 3000000 /dev/zero | tr '\\0' 'x' ; echo ; exit 1", ins=[], outs=[("out", "noisy.out")]))
+    for k in range(nb):
+        sp.proc(t3.RawProc("late%d" % k, "printf partial > {o:out} ; sleep 0.%d ; exit 1" % rng.randint(5, 9), ins=[], outs=[("out", "late%d.out" % k)]))
+    sc = t3.Scratch()
+    try:
+        sc.plant(sp.files)
+        specp = _os.path.join(sc.root, "SPEC")
+        open(specp, "w").write(sp.text(with_files=False))
+        env = dict(_os.environ, VERIF_TRACE=_os.path.join(sc.root, "trace"), VERIF_RDV=_os.path.join(sc.root, "rdv"))
+        env.pop("SCIPIPE_VERIF_LOG", None)
+        _os.makedirs(env["VERIF_RDV"], exist_ok=True)
+        p = subprocess.Popen([_os.path.join(vlib.BIN, "wfrun"), specp], cwd=sc.work, env=env, stdout=subprocess.PIPE, stderr=subprocess.PIPE, start_new_session=True)
+        out_chunks = []
+        th = threading.Thread(target=lambda: out_chunks.append(p.stdout.read()))
+        th.start()
+        # whoever reads the program's error output is slow: 64 KiB every 40 ms
+        chunks = []
+        while True:
+            b = p.stderr.read1(65536)
+            if not b:
+                break
+            chunks.append(b[-300:])
+            time.sleep(0.04)
+        err = b"".join(chunks[-2:])
+        p.wait(timeout=30)
+        th.join()
+        out = out_chunks[0] if out_chunks else b""
+        fs = t3.snapshot_dir(sc.work)
+        problems = []
+        for k in range(nb):
+            v = fs.get("late%d.out" % k)
+            if v is not None:
+                problems.append(("output-of-failed-command", "%d tasks failed while an earlier failure was still being reported (3 MB of output, slow reader): the output of a command that exited 1 is at its final path late%d.out, holding %r" % (nb, k, v[1])))
+                break
+        if p.returncode == 0:
+            problems.append(("silent-failure", "all commands failed, yet the program exits 0"))
+        return {"spec": sp.text(), "bufsize": sp.bufsize, "problems": problems, "point": None, "rc": p.returncode, "stderr": err[-200:].decode("latin-1"), "yield": None,
+                "ntasks": nb + 1, "wall": 2.0, "kind": "simultaneous-failures"}
+    finally:
+        sc.close()
+
+
 def run(rep, tier, seed):
     proved = vlib.prove(rep, MODULE, THEOREMS)
     ok, msg = vlib.build_ocaml()
@@ -267,12 +319,13 @@ def run(rep, tier, seed):
     results += t3.run_many(kill_case, [(seed, i, 0) for i in range(40 if tier == "quick" else 1500)])
     results += t3.run_many(stale_case, [(seed, i) for i in range(16 if tier == "quick" else 300)])
     results += [r for r in t3.run_many(write_fault_case, [(seed, i) for i in range(8 if tier == "quick" else 120)]) if r]
+    results += t3.run_many(simultaneous_failures_case, [(seed, i) for i in range(4 if tier == "quick" else 30)])
     results += t3.run_many(two_instances_case, [(seed, i) for i in range(4 if tier == "quick" else 40)])
     results += t3.run_many(sigpipe_case, [(seed, i) for i in range(4 if tier == "quick" else 40)])
     t3.report_t3(rep, MODULE, proved, results, "T3 crash-point / failure / SIGKILL enumeration")
     rep.cov["evaluations"] = len(results)
     rep.cov["distinct_nontrivial"] = len({(r["spec"], r["point"], r["kind"]) for r in results})
-    rep.cov["rule"] = "fault enumeration on workflows with a two-output task (sub-directory / modified names, additional file), a Go-function or shell task and a two-input join: the process group is killed at every hit of every hook point of Task.Execute, FinalizePaths, Process.Run, createTasks and runProcs (plus a sample of port / slot points); one task fails in each of five ways (shell) or four (Go function); the process group is SIGKILLed at a random instant while commands run; a write(2) of a Go-function task's output is made to fail (ENOSPC / EDQUOT / EIO, injected with strace); the same program started a second time in the same directory while the first instance's command runs; a writer with a streaming and a regular output is killed by SIGPIPE because its reader stops early; histories run / delete an output but keep its audit file / re-run with a command that fails after a partial write / run again as it is; after each, every file at a declared output path must be the complete output of a successful command of its task, and nothing else may have appeared outside the temp dirs; every (workflow, point, kind) is distinct and non-trivial"
+    rep.cov["rule"] = "fault enumeration on workflows with a two-output task (sub-directory / modified names, additional file), a Go-function or shell task and a two-input join: the process group is killed at every hit of every hook point of Task.Execute, FinalizePaths, Process.Run, createTasks and runProcs (plus a sample of port / slot points); one task fails in each of five ways (shell) or four (Go function); the process group is SIGKILLed at a random instant while commands run; a write(2) of a Go-function task's output is made to fail (ENOSPC / EDQUOT / EIO, injected with strace); several tasks failing while an earlier, long failure report is still being written to a slowly read output stream; the same program started a second time in the same directory while the first instance's command runs; a writer with a streaming and a regular output is killed by SIGPIPE because its reader stops early; histories run / delete an output but keep its audit file / re-run with a command that fails after a partial write / run again as it is; after each, every file at a declared output path must be the complete output of a successful command of its task, and nothing else may have appeared outside the temp dirs; every (workflow, point, kind) is distinct and non-trivial"
     rep.cov["samples"] = [{"point": results[5]["point"], "rc": results[5]["rc"]}, results[0]["spec"]]
     kinds = {}
     for r in results:
